@@ -1,14 +1,143 @@
-(* C19 — property theorems only. *)
+(* C19 — property theorems only.  Every proof is `exact <lemma>` (or a closed computation for a refutation
+   witness); Print Assumptions follows each.
+
+   Reading guide.  "Fixed" is the code after the fix: commit (Wallet.checkAuth), "AsIs" the code as found.
+   An operation `WOp i t k` is a token-taking Wallet method called on wallet instance i with token t;
+   `admitted r` says the call got past the gate (it reached the store / the key manager: it returned data,
+   "not found", "already exists" or success); the three rejections are RLocked, RBadToken, RErr.
+   `live_own st t u` = the session table holds a session of token t, not expired at the current time, whose
+   user is u.  `grants_run` lists the (token, profile) pairs returned by the Opens of a history. *)
 From Coq Require Import List NArith Bool.
 Import ListNotations.
 From VF Require Import C19.Model C19.Proofs.
 Local Open Scope N_scope.
 
-(* the code as found admits a live token of profile 1 on an instance of profile 2 *)
+(* FULL STATEMENT, part 1 (repaired code): after ANY history (any number of profiles, instances, opens, closes,
+   ticks, operations), an operation presented to an instance of profile u with token t is admitted ONLY IF
+   t was returned by opening an instance of that same profile u in this history, and its session is still in
+   the table and unexpired now. *)
+Theorem admitted_only_with_live_token_of_that_profile : forall ops i t k u h,
+  nth_error (insts (fst (run Fixed init ops))) i = Some (u, h) ->
+  admitted (snd (step Fixed (fst (run Fixed init ops)) (WOp i t k))) = true ->
+  In (t, u) (grants_run Fixed init ops) /\ live_own (fst (run Fixed init ops)) t u = true.
+Proof. exact admitted_granted. Qed.
+Print Assumptions admitted_only_with_live_token_of_that_profile.
+
+(* the same gate in every state whatsoever (reachable or not) *)
+Theorem admitted_only_with_live_own_session : forall st i t k u h,
+  nth_error (insts st) i = Some (u, h) ->
+  admitted (snd (step Fixed st (WOp i t k))) = true -> live_own st t u = true.
+Proof. exact admitted_own. Qed.
+Print Assumptions admitted_only_with_live_own_session.
+
+(* part 2: a rejected operation changes NOTHING: profiles, stores, keys, handles, the session table and the
+   expiry of every session are what they were (so a rejected presentation does not keep a session alive) *)
+Theorem rejected_changes_nothing : forall v st i t k,
+  admitted (snd (step v st (WOp i t k))) = false -> fst (step v st (WOp i t k)) = st.
+Proof. exact rejected_same. Qed.
+Print Assumptions rejected_changes_nothing.
+
+(* part 3: any other string / closed / expired: a token with no unexpired session is rejected *)
+Theorem token_without_live_session_rejected : forall v st i t k,
+  (forall s, In s (sessions st) -> s_tok s = t -> live (now st) s = false) ->
+  admitted (snd (step v st (WOp i t k))) = false.
+Proof. exact dead_token_rejected. Qed.
+Print Assumptions token_without_live_session_rejected.
+
+(* a token of a different profile, even live, even with both wallets open: rejected, state untouched *)
+Theorem live_token_of_other_profile_rejected : forall st i t k u h s,
+  nth_error (insts st) i = Some (u, h) ->
+  In s (sessions st) -> s_tok s = t -> live (now st) s = true -> s_user s <> u ->
+  step Fixed st (WOp i t k) = (st, RBadToken).
+Proof. exact foreign_token_rejected. Qed.
+Print Assumptions live_token_of_other_profile_rejected.
+
+(* after close (through any instance of the profile) no token of that profile is live *)
+Theorem close_revokes_every_token_of_the_profile : forall v st i u h t,
+  nth_error (insts st) i = Some (u, h) -> live_own (fst (step v st (WClose i))) t u = false.
+Proof. exact close_revokes. Qed.
+Print Assumptions close_revokes_every_token_of_the_profile.
+
+(* after expiry: once time has passed the expiry of the token's session(s), the token is rejected *)
+Theorem expired_token_rejected : forall v st t dt i k,
+  (forall s, In s (sessions st) -> s_tok s = t -> s_exp s < now st + dt) ->
+  admitted (snd (step v (fst (step v st (WTick dt))) (WOp i t k))) = false.
+Proof. exact tick_expires. Qed.
+Print Assumptions expired_token_rejected.
+
+(* a token value is granted at most once in a history (a closed or expired token never becomes valid again) *)
+Theorem tokens_granted_once : forall v ops, NoDup (map fst (grants_run v init ops)).
+Proof. exact grants_once. Qed.
+Print Assumptions tokens_granted_once.
+
+(* ISOLATION.  Reads through an instance of profile u return rows of u's store only ... *)
+Theorem get_returns_own_rows_only : forall v st i t c u h st' x,
+  nth_error (insts st) i = Some (u, h) ->
+  step v st (WOp i t (KGet c)) = (st', RVal x) -> In (u, (c, x)) (contents st).
+Proof. exact get_reads_own. Qed.
+Print Assumptions get_returns_own_rows_only.
+
+Theorem getall_returns_own_rows_only : forall v st i t u h st' l,
+  nth_error (insts st) i = Some (u, h) ->
+  step v st (WOp i t KGetAll) = (st', RAll l) -> forall c x, In (c, x) l -> In (u, (c, x)) (contents st).
+Proof. exact getall_reads_own. Qed.
+Print Assumptions getall_returns_own_rows_only.
+
+(* ... no operation changes the rows of a profile other than the one of the instance it was called on ... *)
+Theorem other_profiles_rows_untouched : forall v st o u',
+  (forall i t k, o = WOp i t k -> inst_user st i <> Some u') ->
+  rows_of (contents (fst (step v st o))) u' = rows_of (contents st) u'.
+Proof. exact others_rows_untouched. Qed.
+Print Assumptions other_profiles_rows_untouched.
+
+(* ... and every row found in profile u's store after any history was put there by an admitted Add called on an
+   instance of u (which, by part 1, presented a live token of u) *)
+Theorem every_row_was_added_through_its_own_profile : forall v ops row,
+  In row (contents (fst (run v init ops))) -> In row (adds_run v init ops).
+Proof. exact rows_provenance. Qed.
+Print Assumptions every_row_was_added_through_its_own_profile.
+
+(* keys (repaired code): every key is wrapped by the master key of the profile through whose instance
+   CreateKeyPair was called *)
+Theorem every_key_belongs_to_the_profile_that_created_it : forall ops row,
+  In row (keys (fst (run Fixed init ops))) -> In row (keyops_run Fixed init ops).
+Proof. exact keys_provenance. Qed.
+Print Assumptions every_key_belongs_to_the_profile_that_created_it.
+
+(* HISTORICAL REFUTATIONS: the code as found (before fix: 58baf02) violates parts 1 and keys.
+   Witnesses are kept in corpus/C19 and replayed on the implementation on every run. *)
+Definition witness_setup : list wop :=
+  [WCreate 1; WCreate 2; WNew 1; WNew 2; WOpen 0%nat true 0; WOpen 1%nat true 0].
+
 Theorem admitted_only_own_asis_refuted :
-  exists ops, all_admitted_own AsIs init ops = false /\ all_admitted_own Fixed init ops = true.
-Proof.
-  exists [WCreate 1; WCreate 2; WNew 1; WNew 2; WOpen 0%nat true 0; WOpen 1%nat true 0; WOp 1%nat 0 (KGet 1)].
-  split; vm_compute; reflexivity.
-Qed.
+  all_admitted_own AsIs init (witness_setup ++ [WOp 1%nat 0 (KGet 1)]) = false /\
+  all_admitted_own Fixed init (witness_setup ++ [WOp 1%nat 0 (KGet 1)]) = true.
+Proof. split; vm_compute; reflexivity. Qed.
 Print Assumptions admitted_only_own_asis_refuted.
+
+Theorem key_ownership_asis_refuted :
+  keys_own AsIs (witness_setup ++ [WOp 1%nat 0 KCreateKey]) = false /\
+  keys_own Fixed (witness_setup ++ [WOp 1%nat 0 KCreateKey; WOp 1%nat 1 KCreateKey]) = true.
+Proof. split; vm_compute; reflexivity. Qed.
+Print Assumptions key_ownership_asis_refuted.
+
+(* NON-VACUITY: a concrete two-profile history in which own tokens are admitted and return data, a foreign live
+   token, a closed token, an expired token and a never-issued token are rejected, and a use re-arms the expiry *)
+Example gate_nonvacuous :
+  snd (run Fixed init (witness_setup ++
+    [WOp 0%nat 0 (KAdd 1 7); WOp 0%nat 0 (KGet 1);          (* own: RDone, RVal 7 *)
+     WOp 1%nat 0 (KGet 1); WOp 1%nat 0 KCreateKey;          (* foreign live: rejected *)
+     WOp 1%nat 1 (KGet 1);                                  (* profile 2's own token: admitted, sees nothing *)
+     WOp 0%nat 900 (KGet 1);                                (* never issued *)
+     WClose 0%nat; WOp 0%nat 0 (KGet 1);                    (* closed *)
+     WOpen 0%nat true 10; WTick 6; WOp 0%nat 2 (KGet 1);    (* new token 2, used at 6: re-armed to 16 *)
+     WTick 6; WOp 0%nat 2 (KGet 1);                         (* at 12: still live thanks to the use *)
+     WTick 12; WOp 0%nat 2 (KGet 1)]))                      (* at 24 > 22: expired *)
+  = [RDone; RDone; RDone; RDone; RTok 0; RTok 1;
+     RDone; RVal 7; RBadToken; RBadToken; RNotFound; RBadToken;
+     RBool true; RLocked; RTok 2; RDone; RVal 7; RDone; RVal 7; RDone; RBadToken].
+Proof. vm_compute. reflexivity. Qed.
+
+Example grants_nonvacuous :
+  grants_run Fixed init (witness_setup ++ [WClose 0%nat; WOpen 0%nat true 10]) = [(0, 1); (1, 2); (2, 1)].
+Proof. vm_compute. reflexivity. Qed.
